@@ -14,6 +14,8 @@ import os
 import sys
 import time
 
+sys.dont_write_bytecode = True      # engine/spec is shared and read-only: leave no __pycache__ there
+
 HERE = os.path.dirname(os.path.abspath(__file__))
 sys.path.insert(0, os.path.join(os.path.dirname(os.path.dirname(HERE)), "engine", "spec"))
 import o5m  # noqa: E402
@@ -274,8 +276,6 @@ def opl_changeset_line(c):
 
 def main(outdir):
     os.makedirs(outdir, exist_ok=True)
-    for f in os.listdir(outdir):
-        os.unlink(os.path.join(outdir, f))
     listing = []
 
     def put(name, fmt, ext, data, expect, flags=""):
@@ -369,4 +369,6 @@ def canon_changeset_opl(c):
 
 
 if __name__ == "__main__":
-    main(sys.argv[1] if len(sys.argv) > 1 else os.path.join(os.path.dirname(os.path.dirname(HERE)), "build", "C06-data"))
+    if len(sys.argv) != 2:
+        sys.exit("usage: gen.py <new output directory>   (check.py calls this; data lives under /verif/build/C06-data/<hash>)")
+    main(sys.argv[1])
